@@ -3,6 +3,8 @@ package harness
 import (
 	"crypto/tls"
 	"fmt"
+	"net/http"
+	"net/http/httptest"
 	"os"
 	"os/exec"
 	"reflect"
@@ -464,6 +466,56 @@ func TestOptions(t *testing.T) {
 			optObject(r, "dialer-"+tr.name, d)
 			optObject(r, "listener2-"+tr.name, l2)
 		})
+		if tr.name == "ws" {
+			// a ws:// listener whose handler the application mounts on its own HTTPS server, dialled with wss://: the
+			// connection is a TLS connection, and the pipes on both sides say so
+			run("ep-ws-hosted-tls", func(r *rec.Recorder) {
+				a, _ := pair.NewSocket()
+				defer a.Close()
+				b, _ := pair.NewSocket()
+				defer b.Close()
+				l, err := a.NewListener(tr.addr(4400+ti), nil)
+				if err != nil {
+					panic(err)
+				}
+				h, err := l.GetOption(ws.OptionWebSocketHandler)
+				if err != nil {
+					panic(err)
+				}
+				srv := httptest.NewTLSServer(h.(http.Handler))
+				defer srv.Close()
+				if err = l.Listen(); err != nil {
+					panic(err)
+				}
+				got := make(chan [2]interface{}, 4)
+				hook := func(side string) mangos.PipeEventHook {
+					return func(ev mangos.PipeEvent, p mangos.Pipe) {
+						if ev == mangos.PipeEventAttached {
+							got <- [2]interface{}{side, p}
+						}
+					}
+				}
+				a.SetPipeEventHook(hook("listener"))
+				b.SetPipeEventHook(hook("dialer"))
+				d, err := b.NewDialer("wss"+strings.TrimPrefix(srv.URL, "https")+"/sp", map[string]interface{}{mangos.OptionTLSConfig: &tls.Config{InsecureSkipVerify: true}})
+				if err != nil {
+					panic(err)
+				}
+				if err = d.Dial(); err != nil {
+					panic(fmt.Sprint("dial hosted wss: ", err))
+				}
+				for i := 0; i < 2; i++ {
+					select {
+					case x := <-got:
+						v, e3 := x[1].(mangos.Pipe).GetOption(mangos.OptionTLSConnState)
+						cs, _ := v.(tls.ConnectionState)
+						r.Emit("opipetls", "tran", "wss-hosted", "side", x[0], "ok", e3 == nil, "complete", cs.HandshakeComplete, "ver", int(cs.Version), "cs", int(cs.CipherSuite))
+					case <-time.After(3 * time.Second):
+						r.Emit("opipetls", "tran", "wss-hosted", "side", "?", "ok", false, "complete", false, "ver", 0, "cs", 0)
+					}
+				}
+			})
+		}
 		// the legacy NO-DELAY option, on its own so that what is known about it does not hide anything else
 		run("nodelay-"+tr.name, func(r *rec.Recorder) {
 			a, _ := pair.NewSocket()
